@@ -36,7 +36,7 @@ type Op struct {
 	Code     int    `json:"code,omitempty"`      // 0 = most recently issued code, k = k-th before it (mod count)
 	CodeForm string `json:"code_form,omitempty"` // "" as issued | mangled | garbage
 	As       int    `json:"as,omitempty"`        // whose credentials: 0 = the client the code was issued to, k = Clients[(k-1) mod n]
-	Pres     string `json:"pres,omitempty"`      // "" registered method, right secret/key | wrong_secret | id_only | swap_method | bad_key | none
+	Pres     string `json:"pres,omitempty"`      // "" registered method, right secret/key | wrong_secret | id_only | swap_method | bad_key | none | stored_basic | stored_post (private_key_jwt client for which the storage also holds a secret: that secret instead of an assertion)
 	BodyID   string `json:"body_id,omitempty"`   // extra client_id form value: "" | own (the As client) | owner (the code's client)
 	Redirect string `json:"redirect,omitempty"`  // "" the request's | other (another registered one) | caller (one of the As client) | missing | a near-miss derivation of the request's (nearKinds)
 	Ver      string `json:"ver,omitempty"`       // "" the request's verifier | wrong | missing | other (verifier of another request) | challenge (the challenge string itself)
@@ -81,6 +81,10 @@ func genClient(t *rapid.T, i int, kind string) vkit.ClientSpec {
 	case "pkjwt":
 		c.AppType, c.AuthMethod = "web", "private_key_jwt"
 		c.Keys = map[string]string{"k-" + id: []string{"rsa2", "rsa3", "p256b", "rsa4"}[i%4]} // RS256 / ES256: what the OP accepts for client assertions
+		if rapid.Bool().Draw(t, fmt.Sprintf("cl%d-storedsecret", i)) {
+			// the storage also holds (and accepts) a secret for this client, e.g. left over from an earlier registration
+			c.Secret = "stored-secret-of-" + id
+		}
 	case "native":
 		c.AppType, c.AuthMethod = "native", "none"
 	case "spa":
@@ -230,7 +234,7 @@ func genExchange(t *rapid.T, nClients int) Op {
 	if rapid.IntRange(0, 2).Draw(t, "foreign") == 0 {
 		o.As = rapid.IntRange(1, nClients).Draw(t, "as")
 	}
-	o.Pres = rapid.SampledFrom([]string{"", "", "", "", "", "", "", "", "wrong_secret", "id_only", "swap_method", "bad_key", "none"}).Draw(t, "pres")
+	o.Pres = rapid.SampledFrom([]string{"", "", "", "", "", "", "", "", "wrong_secret", "id_only", "swap_method", "bad_key", "none", "stored_basic", "stored_post"}).Draw(t, "pres")
 	o.BodyID = rapid.SampledFrom([]string{"", "", "", "", "", "own", "owner", "owner"}).Draw(t, "bodyid")
 	o.Redirect = rapid.SampledFrom(redirectChoices).Draw(t, "redirect")
 	o.Ver = rapid.SampledFrom([]string{"", "", "", "", "", "", "", "wrong", "missing", "missing", "other", "challenge"}).Draw(t, "ver")
@@ -490,6 +494,18 @@ func (e *exec) present(o Op, as, owner *vkit.ClientSpec) (vkit.Cred, wire) {
 		cr = assertion(false)
 	case "none":
 		cr = vkit.Cred{Kind: "none"}
+	case "stored_basic", "stored_post":
+		// a private_key_jwt client presents the secret the storage holds for it (no assertion); every other client: its registered method
+		switch {
+		case as.AuthMethod != "private_key_jwt":
+			cr = vkit.RightCred(as, issuer)
+		case as.Secret == "":
+			cr = assertion(true)
+		case o.Pres == "stored_basic":
+			cr = vkit.Cred{Kind: "basic", ClientID: as.ID, Secret: as.Secret}
+		default:
+			cr = vkit.Cred{Kind: "post", ClientID: as.ID, Secret: as.Secret}
+		}
 	}
 	switch o.BodyID {
 	case "own":
@@ -509,7 +525,7 @@ func (e *exec) present(o Op, as, owner *vkit.ClientSpec) (vkit.Cred, wire) {
 		}
 	case "assertion":
 		w.hasAssertion, w.assertIss = true, as.ID
-		w.assertValid = as.AuthMethod == "private_key_jwt" && (o.Pres == "")
+		w.assertValid = as.AuthMethod == "private_key_jwt" && (o.Pres == "" || o.Pres == "stored_basic" || o.Pres == "stored_post")
 		w.bodyID = cr.BodyID
 	case "none":
 		w.bodyID = cr.ClientID
@@ -870,11 +886,11 @@ func run(c Case) (res *vkit.Result) {
 
 var prop = vkit.Prop[Case]{
 	ID: "C04",
-	Rule: "cases = router (provider | legacy) x id-token alg x 3-5 registered clients (client_secret_basic, client_secret_post, private_key_jwt, public native / user-agent; a redirect URI shared on purpose, some registered URIs with a query, an empty path, a trailing slash or a port; opaque or JWT access tokens) " +
+	Rule: "cases = router (provider | legacy) x id-token alg x 3-5 registered clients (client_secret_basic, client_secret_post, private_key_jwt - half of them with a secret the storage also holds -, public native / user-agent; a redirect URI shared on purpose, some registered URIs with a query, an empty path, a trailing slash or a port; opaque or JWT access tokens) " +
 		"x history of 3-40 ops: authorize(client, registered uri, pkce none|plain|plain-without-method|S256, verifier from a pool of 4, scopes, nonce), login(req, user), callback(req), " +
-		"exchange(code incl. replays / mangled / garbage, as owner or another client, presentation right|wrong secret|id only|other method|assertion with unregistered key|none, extra body client_id, " +
+		"exchange(code incl. replays / mangled / garbage, as owner or another client, presentation right|wrong secret|id only|other method|assertion with unregistered key|none|stored secret of a private_key_jwt client via Basic / POST instead of an assertion, extra body client_id, " +
 		"redirect same|other registered|caller's|missing|12 near-miss derivations of the request's URI (added query / fragment / userinfo / default port / extra or .. segment, trailing slash toggled, host or scheme upper-cased, percent-encoded path letter, query reordered / dropped; all must be refused), verifier right|wrong|missing|of another request|the challenge itself, extra nonce/scope parameters); " +
-		"oracle = code state machine written from the statement, two-sided; grey (asserts nothing on accept/refuse, still checks claims of issued tokens): mixed identity or non-registered method, verifier without challenge, " +
+		"oracle = code state machine written from the statement, two-sided; grey (asserts nothing on accept/refuse, still checks claims of issued tokens): mixed identity or non-registered method (incl. a private_key_jwt client presenting the secret its storage accepts: a genuine credential of that very client, whether the method may be used is property C05's subject; redeeming another client's code that way is must-reject), verifier without challenge, " +
 		"a second code of a request whose other code was exchanged; non-trivial = the history contains an exchange that yields tokens and one the model refuses for a reason other than an unknown code; " +
 		"distinct = (router, set of owner-kind/pkce of successful exchanges, set of refusal-reason combinations per owner kind)",
 	Gen: genCase,
